@@ -1552,10 +1552,16 @@ impl Model {
                 self.eval("retained-complete");
                 let want: Vec<&String> = s.retained_ok.iter().filter(|(t, (_, optional))| !optional && !s.retained_seen.contains(*t)).map(|(t, _)| t).collect();
                 // window clause: the replay is only owed if it is certain to have fitted
-                let room = if s.qos > 0 {
+                let window_room = {
                     // forwards of this replay themselves count in max_outstanding
                     let others = self.conns[conn].max_outstanding.saturating_sub(s.retained_seen.len());
                     self.window.saturating_sub(others)
+                };
+                let room = if s.resubscribed_qos_changed {
+                    // (known finding KF-10: the request may still run with the QoS of the first subscription)
+                    window_room.min(self.qos0_batch)
+                } else if s.qos > 0 {
+                    window_room
                 } else {
                     self.qos0_batch
                 };
